@@ -35,6 +35,31 @@ func Callers(skip, n int) []string {
 	return out
 }
 
+// CallerNames returns bare function names (no line numbers: stable across edits).
+func CallerNames(skip, n int) []string {
+	pc := make([]uintptr, n+skip+4)
+	k := runtime.Callers(skip, pc)
+	fr := runtime.CallersFrames(pc[:k])
+	var out []string
+	for {
+		f, more := fr.Next()
+		fn := f.Function
+		if i := strings.LastIndex(fn, "/"); i >= 0 {
+			fn = fn[i+1:]
+		}
+		if !strings.Contains(fn, "zzvrt") && !strings.Contains(fn, "vsync.") {
+			if i := strings.Index(fn, "."); i >= 0 {
+				fn = fn[i+1:]
+			}
+			out = append(out, fn)
+		}
+		if !more || len(out) >= n {
+			break
+		}
+	}
+	return out
+}
+
 // ---- channels ----
 
 // hchan mirrors the head of runtime.hchan (go1.23): qcount, dataqsiz, buf, elemsize, closed.
@@ -96,6 +121,49 @@ func WaitAny(site string, ready func() bool) {
 	}
 	Point(site)
 	Block(BlockChan, site, ready)
+}
+
+// Select blocks until at least one case is ready and returns the index of the case to
+// take. Go picks uniformly among ready cases; here that is an explicit choice (default:
+// first ready case in source order). With hasDefault it returns -1 if none is ready.
+func Select(site string, hasDefault bool, ready func() []bool) int {
+	if Killed() {
+		runtime.Goexit()
+	}
+	if ex.cur == nil {
+		r := ready()
+		for i, ok := range r {
+			if ok {
+				return i
+			}
+		}
+		if hasDefault {
+			return -1
+		}
+		panic("zzvrt.Select: driver goroutine would block at " + site)
+	}
+	Point(site)
+	if !hasDefault {
+		Block(BlockChan, site, func() bool {
+			for _, ok := range ready() {
+				if ok {
+					return true
+				}
+			}
+			return false
+		})
+	}
+	r := ready()
+	var idx []int
+	for i, ok := range r {
+		if ok {
+			idx = append(idx, i)
+		}
+	}
+	if len(idx) == 0 {
+		return -1
+	}
+	return idx[ex.choose(ChSelect, len(idx), false, site)]
 }
 
 func init() {
